@@ -563,19 +563,42 @@ def digest_bytes(E, alg, data):
     return out
 
 
+CORES = {'Sha1Core': ('SHA1', 20), 'Md5Core': ('MD5', 16), 'Ripemd160Core': ('RMD160', 20), 'Ripemd128Core': ('RMD128', 16),
+         'Ripemd256Core': ('RMD256', 32), 'Ripemd320Core': ('RMD320', 40)}
+VARCORES = {('Sha256VarCore', 32): 'SHA256', ('Sha512VarCore', 64): 'SHA512', ('Blake2sVarCore', 32): 'BLAKE2s'}
+
+
+def _alg_of_type(t):
+    """RustCrypto hasher type (aliases expanded by rustc) -> (algorithm name, output bytes) or None"""
+    import re
+    for core, (name, n) in CORES.items():
+        if re.search(r'\b' + core + r'\b', t):
+            return name, n
+    m = re.search(r'\b(\w+VarCore)\b', t)
+    if m:
+        bits = re.findall(r'\bB([01])\b', t)
+        n = int(''.join(bits), 2) if bits else 0
+        name = VARCORES.get((m.group(1), n))
+        if name is None:
+            name = f'{m.group(1)}_{n}'      # some other member of the family (e.g. SHA-224): its own function
+        return name, n
+    tl = type_last(t)
+    if tl in HASHERS and HASHERS[tl][0]:
+        return HASHERS[tl]
+    return None
+
+
 def hasher_type(E, ci, fr):
     """which RustCrypto hasher does the generic parameter stand for"""
     cands = []
-    t = ci.self_ty or ''
-    for src in [t] + (list(fr.ci.targs) if fr is not None and fr.ci is not None else []):
-        tl = type_last(src)
-        if tl in HASHERS and HASHERS[tl][0]:
-            cands.append(HASHERS[tl][0])
-        elif 'Blake2s' in src:
-            cands.append('BLAKE2s')
+    for src in [ci.self_ty or ''] + (list(fr.ci.targs) if fr is not None and fr.ci is not None else []):
+        r = _alg_of_type(src)
+        if r:
+            cands.append(r)
     if len(cands) != 1:
         raise ModelGap(f'cannot determine digest type for {ci.raw}: {cands}')
-    return cands[0]
+    ALG_LEN.setdefault(cands[0][0], cands[0][1])
+    return cands[0][0]
 
 
 @model('Digest::finalize')
@@ -596,3 +619,208 @@ def _ga_deref(E, ci, g):
         s = as_slice(g)
         return ListIter([Ref(s.buf, s.a + i) for i in range(len(s))])
     return as_slice(g)
+
+
+# ============================================================================ file-system stub
+class FsNode:
+    def __init__(self, kind):
+        self.kind = kind          # 'dir' | 'file'
+        self.children = []        # [(name items, FsNode)]   (dirs)
+        self.content = []         # (files)
+
+
+def fs_walk(E, path, create=None):
+    """resolve a path (string-ish value) in E.fs; create = 'file'/'dir' to create missing nodes"""
+    from .models_io import path_components
+    if not hasattr(E, 'fs') or E.fs is None:
+        E.fs = FsNode('dir')
+    comps = [(k, s) for k, s in path_components(E, as_slice(path)) if k in ('Normal', 'ParentDir')]
+    node = E.fs
+    for idx, (k, seg) in enumerate(comps):
+        if k == 'ParentDir':
+            raise ModelGap('.. in fs stub path')
+        if node.kind != 'dir':
+            return None
+        nxt = None
+        for name, ch in node.children:
+            if E.branch(bytes_eq(name, seg.items())):
+                nxt = ch
+                break
+        if nxt is None:
+            if create is None:
+                return None
+            last = idx == len(comps) - 1
+            nxt = FsNode(create if last else 'dir')
+            node.children.append((list(seg.items()), nxt))
+        node = nxt
+    return node
+
+
+from .models import INTRINSICS, intrinsic   # noqa: E402
+
+
+@intrinsic('fs_root')
+def _fs_root(E, ci):
+    E.fs = FsNode('dir')
+    fs_walk(E, Slice(lit('/vfs'), 0, 4, 'Path'), 'dir')
+    return VecV(lit('/vfs'), 'PathBuf')
+
+
+@intrinsic('fs_add_file')
+def _fs_add_file(E, ci, path, content):
+    n = fs_walk(E, path, 'file')
+    n.kind = 'file'
+    n.content = list(items_of(content))
+    return UNIT
+
+
+@intrinsic('fs_add_dir')
+def _fs_add_dir(E, ci, path):
+    fs_walk(E, path, 'dir')
+    return UNIT
+
+
+class FileObj(Obj):
+    def __init__(self, node):
+        self.kind = 'File'
+        self.node = node
+        self.pos = 0
+
+    def read(self, E, buf):
+        n = min(len(buf), len(self.node.content) - self.pos)
+        for i in range(n):
+            buf.buf[buf.a + i] = self.node.content[self.pos + i]
+        self.pos += n
+        return ok(USZ(n))
+
+
+def _not_found(E):
+    from .models_io import io_error
+    return err(io_error(E, 'NotFound', Slice(lit('No such file or directory'), 0, 25, 'str')))
+
+
+@model('File::open')
+def _file_open(E, ci, path):
+    n = fs_walk(E, path)
+    if n is None:
+        return _not_found(E)
+    if n.kind == 'dir':
+        # opening a directory read-only succeeds on unix; reads then fail with EISDIR. Not needed by the crate.
+        raise ModelGap('File::open on a directory')
+    return ok(FileObj(n))
+
+
+@model('File::metadata')
+def _file_metadata(E, ci, f):
+    return ok(Obj('Metadata', node=deref(f).node))
+
+
+@model('Metadata::len')
+def _metadata_len(E, ci, m):
+    return I('u64', len(deref(m).node.content))
+
+
+@model('Metadata::is_dir')
+def _metadata_is_dir(E, ci, m):
+    return deref(m).node.kind == 'dir'
+
+
+@model('Metadata::is_file')
+def _metadata_is_file(E, ci, m):
+    return deref(m).node.kind == 'file'
+
+
+@model('fs::metadata', 'Path::metadata')
+def _fs_metadata(E, ci, path):
+    n = fs_walk(E, path)
+    return ok(Obj('Metadata', node=n)) if n is not None else _not_found(E)
+
+
+@model('Path::is_dir', 'PathBuf::is_dir')
+def _path_is_dir(E, ci, p):
+    n = fs_walk(E, p)
+    return n is not None and n.kind == 'dir'
+
+
+@model('Path::is_file', 'PathBuf::is_file')
+def _path_is_file(E, ci, p):
+    n = fs_walk(E, p)
+    return n is not None and n.kind == 'file'
+
+
+@model('Path::exists', 'PathBuf::exists')
+def _path_exists(E, ci, p):
+    return fs_walk(E, p) is not None
+
+
+@model('fs::read_to_string')
+def _fs_read_to_string(E, ci, path):
+    from .models import utf8_valid_prefix
+    from .models_io import io_error
+    n = fs_walk(E, path)
+    if n is None:
+        return _not_found(E)
+    if n.kind != 'file':
+        return err(io_error(E, 'Other', Slice(lit('Is a directory'), 0, 14, 'str')))
+    good, _ = utf8_valid_prefix(E, n.content)
+    if not good:
+        return err(io_error(E, 'InvalidData', Slice(lit('stream did not contain valid UTF-8'), 0, 34, 'str')))
+    return ok(VecV(list(n.content), 'String'))
+
+
+@model('fs::read')
+def _fs_read(E, ci, path):
+    n = fs_walk(E, path)
+    if n is None:
+        return _not_found(E)
+    return ok(VecV(list(n.content), 'Vec'))
+
+
+class ReadDirObj(Iter):
+    """directory listing in an arbitrary order (the engine forks over the next entry each time)"""
+
+    def __init__(self, base, node):
+        self.kind = 'ReadDir'
+        self.base = base
+        self.left = list(node.children)
+
+    def next(self, E):
+        if not self.left:
+            return none()
+        k = 0
+        while k < len(self.left) - 1:
+            if E.branch(E.fresh_bool(f'readdir.next=={k}')):
+                break
+            k += 1
+        name, node = self.left.pop(k)
+        return some(ok(Obj('DirEntry', base=self.base, name=name, node=node)))
+
+
+@model('fs::read_dir', 'Path::read_dir')
+def _read_dir(E, ci, path):
+    n = fs_walk(E, path)
+    if n is None:
+        return _not_found(E)
+    if n.kind != 'dir':
+        from .models_io import io_error
+        return err(io_error(E, 'Other', Slice(lit('Not a directory'), 0, 15, 'str')))
+    return ok(ReadDirObj(list(as_slice(path).items()), n))
+
+
+@model('DirEntry::path')
+def _direntry_path(E, ci, d):
+    from .models_io import pathbuf_push
+    d = deref(d)
+    pb = VecV(list(d.base), 'PathBuf')
+    pathbuf_push(E, pb, Slice(d.name, 0, len(d.name), 'Path'))
+    return pb
+
+
+@model('DirEntry::file_name')
+def _direntry_file_name(E, ci, d):
+    return VecV(list(deref(d).name), 'OsString')
+
+
+@model('DirEntry::metadata', 'DirEntry::file_type')
+def _direntry_metadata(E, ci, d):
+    return ok(Obj('Metadata', node=deref(d).node))
